@@ -76,6 +76,39 @@ def bytesOps (cost : Nat → Nat → Int) : CacheOps Clem.LruBytes.State Nat Nat
 /-! ### cache switched off (`cache is None`) -/
 def offOps : CacheOps Unit Nat Nat := ⟨fun s _ => (s, none), fun s _ _ => s, fun s _ => s⟩
 
+/-! ### value aliasing: caches of MUTABLE containers
+
+The stage results are Python objects with mutable containers (lists of deltas / hits, a metrics dict).  A cache can
+keep the very object it hands out (by reference) or hand out detached copies.  "Other" operation `t`: the caller
+appends `t` to the result it was handed last (accumulating further deltas into it, annotating it, …). -/
+
+structure AState where
+  store : List (Nat × List Nat)
+  last : Option Nat          -- key of the entry whose object the caller was handed last
+deriving Repr, DecidableEq
+
+def aFind (s : AState) (k : Nat) : Option (Nat × List Nat) := s.store.find? (fun p => p.1 == k)
+
+def aGet (s : AState) (k : Nat) : AState × Option (List Nat) :=
+  match aFind s k with
+  | some p => ({ s with last := some k }, some p.2)
+  | none => (s, none)
+
+def aPut (s : AState) (k : Nat) (v : List Nat) : AState :=
+  { store := (k, v) :: s.store.filter (fun p => p.1 != k), last := some k }
+
+/-- by reference: the caller's edit lands in the cached object -/
+def aEditRef (s : AState) (t : Nat) : AState :=
+  match s.last with
+  | some k => { s with store := s.store.map (fun p => if p.1 == k then (p.1, p.2 ++ [t]) else p) }
+  | none => s
+
+/-- detached copies: the caller's edit does not reach the cache -/
+def aEditCopy (s : AState) (_ : Nat) : AState := s
+
+def refOps : CacheOps AState Nat (List Nat) := ⟨aGet, aPut, aEditRef⟩
+def copyOps : CacheOps AState Nat (List Nat) := ⟨aGet, aPut, aEditCopy⟩
+
 /-! ## T1 stage cache (`stages/t1.py:_t1_one_graph`) -/
 
 /-- Everything one `_t1_one_graph(gid)` call reads. -/
